@@ -26,7 +26,7 @@ def run(F, ctx):
     pcs = [c for c in f.normal_calls() if (c.static or "").startswith("storage::persist::PersistBackend::")]
     if not pcs:
         raise CheckError("insert_tuples_into: no persist call")
-    rel_l, tup_l = f.local_named("relation"), f.local_named("tuples")
+    rel_l, tup_l = f.need_local("relation"), f.need_local("tuples")
     if rel_l is None or tup_l is None:
         raise CheckError("insert_tuples_into: parameters relation/tuples not found")
     good = None
